@@ -279,7 +279,7 @@ def run_program(ctx, exe, flavour, lines, env, tag):
         ctx.violation("an API call touched heap memory of ANOTHER instance (heap isolation: every instance's allocations live in its own "
                       "arena, the other arenas are PROT_NONE during the call): thread %s operation #%s `%s` %s; operation line: %s"
                       % (mi.group(1), mi.group(2), mi.group(3), mi.group(4), own[int(mi.group(2))] if int(mi.group(2)) < len(own) else "?"),
-                      dict(replay, line=mi.group(0)), signature="seq-memory:isolation:" + mi.group(3))
+                      dict(replay, line=mi.group(0)), signature="seq-memory:isolation")
         res["ok"] = False
         return res
     if asig:
